@@ -159,8 +159,9 @@ impl Property for C11 {
                 let c = fixed_cap(ty).unwrap_or(usize::MAX);
                 let maxc = if c == usize::MAX { maxitems } else { (c / nty.bits() + 2).min(40) };
                 for count in 0..=maxc {
-                    for pat in 0..3u128 {
-                        let items: Vec<Nat> = (0..count).map(|i| Nat::new(nty, match pat { 0 => nty.maxv(), 1 => (i as u128 + 1) * 0x0123_4567_89AB_CDEF_0F1E_2D3C_4B5A_6978, _ => 1u128 << ((i * 7) % nty.bits()) })).collect();
+                    for pat in 0..5u128 {
+                        // patterns 3 and 4 have an all-zero tail (only element 0 / elements 0..2 set)
+                        let items: Vec<Nat> = (0..count).map(|i| Nat::new(nty, match pat { 0 => nty.maxv(), 1 => (i as u128 + 1) * 0x0123_4567_89AB_CDEF_0F1E_2D3C_4B5A_6978, 2 => 1u128 << ((i * 7) % nty.bits()), 3 => if i == 0 { nty.maxv() } else { 0 }, _ => if i < 2 { 5 } else { 0 } })).collect();
                         if !f(C11Case::FromSlice { ty, nty, items }) {
                             return;
                         }
@@ -178,6 +179,15 @@ impl Property for C11 {
                 let mut vals: Vec<Bits> = three_values(n).to_vec();
                 vals.push(Bits::zeros(n));
                 vals.push(Bits::from_u128(1, n));
+                if n > 1 {
+                    // small value plus the top bit; only the top bit
+                    let mut b = Bits::from_u128(5, n);
+                    b.0[n - 1] = true;
+                    vals.push(b);
+                    let mut b = Bits::zeros(n);
+                    b.0[n - 1] = true;
+                    vals.push(b);
+                }
                 for w in [8usize, 16, 32, 64, 128] {
                     for s in [w - 1, w, w + 1] {
                         if s <= n && s > 0 {
